@@ -1095,8 +1095,8 @@ fn chain_step(mask: Mask, k: usize, step: &ChainStep, cur_ref: &mut PortableRegi
                         cur = dec;
                     }
                     Err(err) => {
+                        // no registry was produced: C07's statement, not C01's
                         fail(mask, "C07", "chain.decode_own_output_failed", || format!("{}", err))?;
-                        fail(mask, "C01", "decode_own_output.failed", || format!("{}", err))?;
                     }
                 }
                 probe("chain.scale_round_trip");
@@ -1109,8 +1109,9 @@ fn chain_step(mask: Mask, k: usize, step: &ChainStep, cur_ref: &mut PortableRegi
                         oracle::check_well_formed(mask, "json_own_output", &dec, &p)?;
                         cur = dec;
                     }
-                    Err(err) => {
-                        fail(mask, "C01", "json_own_output.failed", || format!("{}", err))?;
+                    Err(_) => {
+                        // C08 (not claimed) speaks about this; no registry was produced
+                        probe("chain.json_own_output_rejected");
                     }
                 }
                 probe("chain.json_round_trip");
